@@ -1,13 +1,17 @@
-"""C20 — spatio-temporal constraints (table level; tracker level is added with the tracker model)."""
+"""C20 — spatio-temporal constraints: table level and tracker level."""
 from wiregen import *
 from geomgen import *
+from trkgen import history, scenes_of, VISUAL
 import itertools
 
 ID = "C20"
+THEOREM_MODULES = ["SimVerif.Props.C20", "SimVerif.Props.C20b"]
 THEOREM_MODULE = "SimVerif.Props.C20"
-NONTRIVIAL_FLAGS = {"overlap", "near-disjoint", "rejected", "admitted-under-limit", "at-limit", "larger-gap-entry", "dup-gap", "assert"}
+NONTRIVIAL_FLAGS = {"constraint-checked-pairs", "constraint-near-limit", "compared-nonempty", "overlap", "near-disjoint", "rejected", "admitted-under-limit", "at-limit", "larger-gap-entry", "dup-gap", "assert"}
 RULE = ("cases = `constr new`, one or more `constr add k (gap limit)*` calls (gaps 0..8, limits from a grid, duplicates within and across calls, "
         "occasional non-positive limit = expected assert), `geom inter` pairs of boxes of different sizes (the executor also evaluates dist_in_2r, compared with centre distance / (r1+r2)), then `constr val gap dist` probes for every gap 0..10 and distances at/around every limit; "
+        "tracker level: histories with fast-moving and re-appearing objects on the four trackers under random binding tables — before every predict the executor reports, for every (detection, track) pair of the distance table, the epoch gap and the centre distance in units of the two bounding radii (measured between the last predicted boxes, read through public API), and every pair must be admitted by the model of the table; "
+        "and the same history on a tracker with a table no pair can violate and on a tracker without constraints, compared record by record; "
         "thorough tier enumerates all tables of <=3 entries over gaps {0,1,3,8} x limits {0.5,1,2}; non-trivial = the model flagged a rejection, an admission under a "
         "binding limit, a probe exactly at the limit, an entry with a strictly larger gap being used, a duplicate gap, or an assert; distinct = distinct request line")
 TRUSTED_BASE = ["Lean 4.33 kernel", "axioms: propext, Quot.sound, Classical.choice (at most)",
@@ -17,8 +21,9 @@ ASSUMPTIONS = ["limits and distances are finite f32 (compared as exact rationals
                "a table object on which add_constraints asserted is not used again (its partial state is unspecified)"]
 LEVEL_TEXT = ("Lean 4 theorems over the model of add_constraints/validate: after any sequence of successful adds the table is strictly gap-sorted and keeps the first limit per gap "
               "(stability of the sort + dedup), validate uses the smallest configured gap >= d, admission iff dist <= that limit, monotone in dist and in gap, constraints only remove. "
-              "Differential run against the real struct on exhaustive small tables and random ones.")
-LEVEL_NOTE = "Trusted: Lean kernel; model<->code tie sampled, not proved. Tracker-level clauses (non-binding table == no table; binding limit respected) are decided with the tracker model (see C02/C04 checks) once registered."
+              "Tracker level (Props/C20b): a valid choice over the constrained table attaches a detection only through an admitted pair (C20_binding), the constrained table is a sub-list of the unconstrained one (C20_only_remove), a table no pair violates leaves the distance table and hence the set of valid choices unchanged (C20_nonbinding, C20_empty). "
+              "Differential run against the real struct on exhaustive small tables and random ones, and of the four trackers under binding and non-binding tables.")
+LEVEL_NOTE = "Trusted: Lean kernel; model<->code tie sampled, not proved. At tracker level the constraints act only as a filter of the distance table (Props/C20b): the theorems are about that filter, the run checks on every call that the implementation's table contains admitted pairs only (distance between the last predicted boxes, as `compatible()` measures it)."
 TECHNIQUE = "Lean 4 proof (sort stability + dedup invariants by induction) with differential correspondence check"
 
 LIMS = [0.5, 1.0, 2.0, 0.25, 3.5]
@@ -78,6 +83,23 @@ def generate(rng, tier):
                 c.append((g, f32(l)))
             calls.append(c)
         cases.append(case_of(calls, rng, neg=rng.random() < 0.05))
+    # tracker level: binding tables, every pair of every call's distance table must be admitted
+    nt, steps = {"quick": (16, 22), "thorough": (300, 45), "search": (80, 30)}.get(tier, (16, 22))
+    kinds = ["sort", "bsort", "visual", "bvisual"]
+    for i in range(nt):
+        cons = [(g, rng.choice([0.2, 0.4, 0.8, 1.5])) for g in sorted(rng.sample(range(1, 5), rng.randint(1, 3)))]
+        cases.append(history(rng, kinds[i % 4], steps, api_mix=(i % 5 == 0), constraints=cons, max_idle=rng.randint(1, 4)))
+    # a table no pair can violate vs no table: same records (ids included for the simple trackers)
+    loose = " 1 8 %s" % f32tok(100000.0)
+    for i in range(nt // 2):
+        kind = kinds[i % 4]
+        h = history(rng, kind, steps, api_mix=False, constraints=[(8, 100000.0)], max_idle=rng.randint(1, 4))
+        assert loose in h[0], h[0]
+        h0 = [h[0].replace(loose, " 0", 1)] + h[1:]
+        out = ["trk sel 0"] + h + ["trk sel 1"] + h0
+        for sc in scenes_of(h):
+            out.append("trk %s 0 1 %d" % ("cmp" if kind.startswith("b") else "cmpids", sc))
+        cases.append(out)
     # the distance the constraints are applied to: dist_in_2r = centre distance / sum of the two bounding radii
     for i in range({"quick": 150, "thorough": 3000, "search": 1000}.get(tier, 150)):
         a, b = pair(rng)
@@ -86,4 +108,8 @@ def generate(rng, tier):
 
 
 def shape_key(case, results):
+    for r in results:
+        if not r.o or not r.k or r.bad:
+            t = r.req.split()
+            return "%s-%s" % (t[0], t[1]) + ("-constraint-violated" if "constraint-violated" in r.flags else "")
     return "constr-%d-lines" % len(case)
